@@ -7,7 +7,6 @@ package main
 
 import (
 	"fmt"
-	"sort"
 	"strconv"
 	"strings"
 
@@ -30,6 +29,10 @@ type mnode struct {
 	star     *mnode  // '*' child
 	starKind byte    // how the '*' is written: 'f' `.*`, 'i' `[*]`, 'm' `{*}`
 	kids     []*mkid // specific children
+	// shadow (leaf nodes only): a sub-tree of DEEPER paths that are written BEFORE the complete path ending here (`$.S.a` then `$.S`).
+	// The library accepts a prefix after its own extensions (the reverse order is an error) and the prefix then covers everything
+	// below, so the shadow has no meaning for the path set: it only exercises the library's "isAll over existing children" case.
+	shadow *mnode
 }
 
 func leafNode() *mnode { return &mnode{leaf: true} }
@@ -38,14 +41,29 @@ func leafNode() *mnode { return &mnode{leaf: true} }
 
 // paths renders the tree as thrift paths. Sibling index/key children sharing one sub-tree (pointer-equal) are written
 // as one bracket group `[1,2]`.
-func (n *mnode) paths() []string {
+func (n *mnode) paths() []string { return n.pathsFor(false) }
+
+// blackShadow: also write "prefix after deeper" pairs for black-list masks. OFF: on the tree as found a black-list complete path
+// written after one of its extensions (`$.oi.y` then `$.oi`) does not reject the node (it counts as an intermediate node because
+// it has children) — the library's order-dependent treatment of such sets is property C14's (docs/C13.md, "Observed").
+var blackShadow = false
+
+var renderShadow = true
+
+// pathsFor renders the path list for a white- or black-list mask (in the order the paths are handed to NewFieldMask).
+func (n *mnode) pathsFor(black bool) []string {
 	var out []string
+	renderShadow = !black || blackShadow
 	n.render("$", &out)
+	renderShadow = true
 	return out
 }
 
 func (n *mnode) render(prefix string, out *[]string) {
 	if n.leaf {
+		if renderShadow && n.shadow != nil && !n.shadow.leaf {
+			n.shadow.render(prefix, out)
+		}
 		*out = append(*out, prefix)
 		return
 	}
@@ -170,8 +188,9 @@ func (s sel) child(st step) (sel, bool) {
 // ---------------------------------------------------------------- generation
 
 type maskGen struct {
-	r *vl.Rng
-	s *idlgen.Schema
+	r        *vl.Rng
+	s        *idlgen.Schema
+	noShadow bool
 }
 
 func keyStep(kt *idlgen.RType, k *values.Value) step {
@@ -257,7 +276,19 @@ func indexShape(r *vl.Rng, n int) []int64 {
 func (g *maskGen) gen(t *idlgen.RType, v *values.Value, depth int, count func(string)) *mnode {
 	if t.IsBase() || depth <= 0 || g.r.Chance(18) {
 		count("mask.node.leaf")
-		return leafNode()
+		n := leafNode()
+		if !t.IsBase() && !g.noShadow && g.r.Chance(35) {
+			// a complete path written AFTER deeper paths through the same node
+			g.noShadow = true
+			for try := 0; try < 4 && n.shadow == nil; try++ {
+				if sh := g.gen(t, v, 2, func(string) {}); !sh.leaf {
+					n.shadow = sh
+					count("mask.node.leaf-after-deeper")
+				}
+			}
+			g.noShadow = false
+		}
+		return n
 	}
 	switch t.Kind {
 	case idlgen.RStruct:
@@ -418,7 +449,7 @@ func maskSpec(black bool, n *mnode, isNil bool) string {
 	}
 	var ps []string
 	if n != nil {
-		ps = n.paths()
+		ps = n.pathsFor(black)
 	}
 	b := "0"
 	if black {
@@ -443,7 +474,6 @@ func describeMask(black bool, n *mnode, isNil bool) string {
 	if n == nil {
 		return mode + " []"
 	}
-	ps := n.paths()
-	sort.Strings(ps)
+	ps := n.pathsFor(black) // in the order they are added: a prefix may follow its extensions
 	return fmt.Sprintf("%s %q", mode, ps)
 }
